@@ -920,6 +920,124 @@ def generate(repo):
            f'def zygoTailValue : Int := {M}.zygoInvalid\n'
            'def zygoTruncWarns : Bool := true\ndef zygoHeaderLenKey : String := "header_size"')
 
+    # ---- file layout: where the intensity and phase blocks start, how long they are, what they hold
+    def zlayout():
+        fn = get_def(io, 'read_zygo_dat')
+        keys = {nm: meta_key(fn, nm) for nm in ('iw', 'ih', 'ib', 'pw', 'ph', 'header_len')}
+        # the bucket default: `if ib == c: ib = d` (at most one re-assignment of ib)
+        ib_assigns = find_assigns(fn, 'ib')
+        ifs = [n for n in ast.walk(fn) if isinstance(n, ast.If) and any(isinstance(x, ast.Name) and x.id == 'ib' for x in ast.walk(n.test))]
+        if len(ib_assigns) == 1 and not ifs:
+            buckets = 'ib'
+        elif len(ib_assigns) == 2 and len(ifs) == 1:
+            t = ifs[0]
+            if not (isinstance(t.test, ast.Compare) and len(t.test.ops) == 1 and isinstance(t.test.ops[0], ast.Eq)
+                    and ast.unparse(t.test.left) == 'ib' and isinstance(t.test.comparators[0], ast.Constant)
+                    and isinstance(t.test.comparators[0].value, int) and len(t.body) == 1 and not t.orelse
+                    and isinstance(t.body[0], ast.Assign) and ast.unparse(t.body[0].targets[0]) == 'ib'
+                    and isinstance(t.body[0].value, ast.Constant) and isinstance(t.body[0].value.value, int)):
+                raise Untranslatable(f'bucket default {ast.unparse(t)[:50]}')
+            buckets = f'if ib = ({t.test.comparators[0].value} : Int) then ({t.body[0].value.value} : Int) else ib'
+        else:
+            raise Untranslatable('ib is re-assigned in a way the translator does not understand')
+        tr = Tr({'iw': 'iw', 'ih': 'ih', 'ib': '(zygoBuckets ib)', 'pw': 'pw', 'ph': 'ph', 'header_len': 'hdr', 'ilen': 'ilen', 'plen': 'plen'}, 'int')
+        ilen = tr.expr(find_assign(fn, 'ilen'))
+        plen = tr.expr(find_assign(fn, 'plen'))
+
+        def frombuffer(node):
+            """(call node of np.frombuffer, reshape tuple or None) inside an assigned value"""
+            calls = [c for c in ast.walk(node) if isinstance(c, ast.Call) and _unp(c.func).endswith('frombuffer')]
+            if len(calls) != 1:
+                raise Untranslatable('no single frombuffer call')
+            rs = [c for c in ast.walk(node) if isinstance(c, ast.Call) and isinstance(c.func, ast.Attribute) and c.func.attr == 'reshape']
+            shape = None
+            if rs:
+                a = rs[0].args[0] if len(rs[0].args) == 1 else ast.Tuple(elts=list(rs[0].args))
+                if not isinstance(a, ast.Tuple):
+                    raise Untranslatable('reshape argument')
+                shape = [ast.unparse(e) for e in a.elts]
+            c = calls[0]
+            if len(c.args) != 1 or ast.unparse(c.args[0]) != 'contents':
+                raise Untranslatable('frombuffer does not read the file contents')
+            kw = {k.arg: k.value for k in c.keywords}
+            if set(kw) != {'offset', 'count', 'dtype'}:
+                raise Untranslatable(f'frombuffer keywords {sorted(kw)}')
+            return kw, shape
+
+        def dtype_code(e):
+            txt = _unp(e)
+            if isinstance(e, ast.Name) and txt not in ('int', 'float'):
+                txt = _unp(find_assign(fn, e.id))
+            table = {'np.uint16': 'u16native', "np.dtype(np.int32).newbyteorder('>')": 'i32big', "np.dtype('>i4')": 'i32big', "'>i4'": 'i32big',
+                     "np.dtype(np.uint16)": 'u16native', "'<u2'": 'u16little', "np.dtype('<u2')": 'u16little'}
+            if txt not in table:
+                raise Untranslatable(f'dtype {txt}')
+            return table[txt]
+        ints = [v for v in find_assigns(fn, 'intensity') if 'frombuffer' in _unp(v)]
+        if len(ints) != 1:
+            raise Untranslatable('intensity is not read by one frombuffer')
+        ikw, ishape = frombuffer(ints[0])
+        if ishape is None:
+            raise Untranslatable('intensity is not reshaped')
+        trys = [n for n in ast.walk(fn) if isinstance(n, ast.Try)]
+        if len(trys) != 1:
+            raise Untranslatable('expected one try block')
+        pst = [st for st in trys[0].body if isinstance(st, ast.Assign) and ast.unparse(st.targets[0]) == 'phase_raw']
+        if len(pst) != 1:
+            raise Untranslatable('phase_raw is not read in the try block')
+        pkw, _ = frombuffer(pst[0].value)
+        # frame selection
+        sel = []
+        for n in ast.walk(fn):
+            if isinstance(n, ast.If) and isinstance(n.test, ast.Compare) and len(n.test.ops) == 1 and isinstance(n.test.ops[0], ast.Eq) \
+                    and 'multi_intensity_action' in ast.unparse(n.test.left) and isinstance(n.test.comparators[0], ast.Constant):
+                if ast.unparse(n.test.left) != 'multi_intensity_action.lower()':
+                    raise Untranslatable('frame selection key')
+                if len(n.body) != 1 or not isinstance(n.body[0], ast.Assign) or ast.unparse(n.body[0].targets[0]) != 'intensity':
+                    raise Untranslatable('frame selection body')
+                v = n.body[0].value
+                if isinstance(v, ast.Subscript) and ast.unparse(v.value) == 'intensity':
+                    try:
+                        k = pyeval(v.slice, {})
+                    except Exception:
+                        raise Untranslatable('frame index')
+                    if not isinstance(k, int):
+                        raise Untranslatable('frame index')
+                    sel.append((n.lineno, n.test.comparators[0].value, f'some ({k} : Int)'))
+                elif ast.unparse(v) in ('intensity.mean(axis=0)', 'intensity.mean(0)', 'np.mean(intensity, axis=0)'):
+                    sel.append((n.lineno, n.test.comparators[0].value, 'none'))
+                else:
+                    raise Untranslatable(f'frame selection {ast.unparse(v)}')
+        sel.sort()
+        sl = ', '.join(f'({lean_str(a)}, {b})' for _, a, b in sel)
+        kl = ', '.join(f'({lean_str(a)}, {lean_str(b)})' for a, b in keys.items())
+        return (f'def zygoBuckets (ib : Int) : Int := {buckets}\n'
+                f'def zygoIlen (iw ih ib : Int) : Int := {ilen}\n'
+                f'def zygoPlen (pw ph : Int) : Int := {plen}\n'
+                f'def zygoIntOffset (hdr : Int) : Int := {tr.expr(ikw["offset"])}\n'
+                f'def zygoIntCount (ilen : Int) : Int := {tr.expr(ikw["count"])}\n'
+                f'def zygoIntDtype : String := {lean_str(dtype_code(ikw["dtype"]))}\n'
+                f'def zygoIntShape : List String := [{", ".join(lean_str(x) for x in ishape)}]\n'
+                f'def zygoPhaseOffset (hdr ilen : Int) : Int := {tr.expr(pkw["offset"])}\n'
+                f'def zygoPhaseCount (plen : Int) : Int := {tr.expr(pkw["count"])}\n'
+                f'def zygoPhaseDtype : String := {lean_str(dtype_code(pkw["dtype"]))}\n'
+                f'def zygoFrameSel : List (String × Option Int) := [{sl}]\n'
+                f'def zygoLayoutKeys : List (String × String) := [{kl}]')
+    g.item('zygo.layout', 'prysm/io.py:read_zygo_dat', None, zlayout,
+           f'def zygoBuckets (ib : Int) : Int := {M}.modelBuckets ib\n'
+           f'def zygoIlen (iw ih ib : Int) : Int := {M}.modelIlen iw ih ib\n'
+           'def zygoPlen (pw ph : Int) : Int := pw * ph\n'
+           f'def zygoIntOffset (hdr : Int) : Int := {M}.modelIntOffset hdr\n'
+           'def zygoIntCount (ilen : Int) : Int := ilen\n'
+           'def zygoIntDtype : String := "u16native"\n'
+           'def zygoIntShape : List String := ["ib", "ih", "iw"]\n'
+           f'def zygoPhaseOffset (hdr ilen : Int) : Int := {M}.modelPhaseOffset hdr ilen\n'
+           'def zygoPhaseCount (plen : Int) : Int := plen\n'
+           'def zygoPhaseDtype : String := "i32big"\n'
+           f'def zygoFrameSel : List (String × Option Int) := {M}.modelFrameSel\n'
+           'def zygoLayoutKeys : List (String × String) := [("iw", "ac_width"), ("ih", "ac_height"), ("ib", "ac_n_buckets"), '
+           '("pw", "cn_width"), ("ph", "cn_height"), ("header_len", "header_size")]')
+
     # ---- Code V: GRD token order
     def cv_grd():
         w = get_def(io, 'write_codev_gridint')
@@ -1079,6 +1197,52 @@ def generate(repo):
         ok = warn and len(sets) == 1 and len(masks) == 1 and masks[0].lineno > st.lineno and not st.orelse
         return f'def cvReaderTrailingCheck : Bool := {"true" if ok else "false"}'
     g.item('codev.trailing', 'prysm/io.py:read_codev_gridint', None, cv_trailing, 'def cvReaderTrailingCheck : Bool := true')
+
+    # ---- Code V: comment lines, title line, header line
+    def cv_preamble():
+        r = get_def(io, 'read_codev_gridint')
+        whiles = [st for st in r.body if isinstance(st, ast.While) and 'startswith' in _unp(st.test)]
+        if len(whiles) != 1:
+            raise Untranslatable('no single comment loop')
+        t = whiles[0].test
+        if not (isinstance(t, ast.Call) and isinstance(t.func, ast.Attribute) and t.func.attr == 'startswith' and len(t.args) == 1
+                and isinstance(t.args[0], ast.Constant) and isinstance(t.args[0].value, str) and len(t.args[0].value) == 1):
+            raise Untranslatable(f'comment test {_unp(t)[:50]}')
+        marker = t.args[0].value
+        recv = t.func.value
+        if isinstance(recv, ast.Name):
+            strip, txt = '', recv.id
+        elif isinstance(recv, ast.Call) and isinstance(recv.func, ast.Attribute) and recv.func.attr == 'lstrip' and isinstance(recv.func.value, ast.Name):
+            txt = recv.func.value.id
+            if not recv.args:
+                strip = ' \t\n\r\x0b\x0c'
+            elif len(recv.args) == 1 and isinstance(recv.args[0], ast.Constant) and isinstance(recv.args[0].value, str):
+                strip = recv.args[0].value
+            else:
+                raise Untranslatable('lstrip argument')
+        else:
+            raise Untranslatable(f'comment test {_unp(t)[:50]}')
+        body = whiles[0].body
+        nl = "'\\n'"
+        finds = [st for st in body if isinstance(st, ast.Assign) and _unp(st.value) == f'{txt}.find({nl})' and isinstance(st.targets[0], ast.Name)]
+        if len(finds) != 1:
+            raise Untranslatable('comment loop does not look for the newline')
+        iname = finds[0].targets[0].id
+        adv = [st for st in body if isinstance(st, ast.Assign) and _unp(st.targets[0]) == txt]
+        raises = any(isinstance(st, ast.If) and _unp(st.test) == f'{iname} < 0' and any(isinstance(x, ast.Raise) for x in st.body) for st in body)
+        loop_ok = len(adv) == 1 and _unp(adv[0].value) == f'{txt}[{iname} + 1:]' and raises and len(body) == 3
+        # after the loop: end = txt.find(nl); raise if < 0; title = txt[:end]; txt = txt[end+1:]; end = txt.find(nl); hdr = txt[:end]; data = txt[end+1:]
+        after = [_unp(st) for st in r.body[r.body.index(whiles[0]) + 1:]]
+        want = [f'end = {txt}.find({nl})', None, f'title = {txt}[:end]', f'{txt} = {txt}[end + 1:]', f'end = {txt}.find({nl})', f'hdr = {txt}[:end]']
+        split_ok = len(after) > 6 and all(w is None or a == w for a, w in zip(after, want)) and after[1].startswith('if end < 0:') and 'raise' in after[1] \
+            and f'main_data = {txt}[end + 1:]' in after and 'params = hdr.split()' in after
+        return (f'def cvCommentStrip : List Nat := [{", ".join(str(ord(ch)) for ch in strip)}]\n'
+                f'def cvCommentMarkerCode : Nat := {ord(marker)}\n'
+                f'def cvCommentLoopOk : Bool := {"true" if loop_ok else "false"}\n'
+                f'def cvTitleHeaderSplit : Bool := {"true" if split_ok else "false"}')
+    g.item('codev.preamble', 'prysm/io.py:read_codev_gridint', None, cv_preamble,
+           'def cvCommentStrip : List Nat := [32, 9]\ndef cvCommentMarkerCode : Nat := 33\ndef cvCommentLoopOk : Bool := true\n'
+           'def cvTitleHeaderSplit : Bool := true')
 
     # ---- Code V: header keywords the writer can emit / the reader understands
     def cv_tokens():
